@@ -355,6 +355,13 @@ def check_eval_and_spider(ctx):
     zero = any(isinstance(s, ast.Assign) and ast.unparse(s.value) == "numpy.zeros(dom @ cod)" for s in sp.body)
     ctx.ob("R09.4", TEN + ".Spider.__init__:delta", ok and zero, found=ast.unparse(loop)[:120] if loop else None,
            required="zeros(dom @ cod) with exactly the all-equal index entries set to 1", mod=TEN, node=sp, sig="spider-delta")
+    ds = m.func(TEN + ".Diagram.spiders")
+    ctx.analysed(TEN + ".Diagram.spiders")
+    a_ = [x.arg for x in ds.args.args]
+    shape.match_stmts(ctx, "R09.4", TEN + ".Diagram.spiders", [s for s in ds.body if not (isinstance(s, ast.Expr) and isinstance(s.value, ast.Constant))],
+                      ["dim = dim if isinstance(dim, Dim) else Dim(dim)", "if not dim:\n    return Id(dim)", "if len(dim) == 1:\n    return Spider(n_legs_in, n_legs_out, dim)", "raise NotImplementedError"],
+                      dict(zip(a_, ("n_legs_in", "n_legs_out", "dim"))), mod=TEN, node=ds, sig="spiders", exact=True,
+                      required="no wire: the identity; one wire: the spider box with these legs; several wires are refused")
     typ = shape.values_of(sp.body, ["dom", "cod"])
     ctx.need(typ is not None, "Spider.__init__ does not bind dom, cod")
     shape.match(ctx, "R09.4", TEN + ".Spider.__init__:type", typ, "(dim ** n_legs_in, dim ** n_legs_out)", {}, mod=TEN, node=sp, sig="spider-type")
